@@ -20,6 +20,7 @@ async def shrink(src, kind):
     while changed and len(lines)>1:
         changed=False
         for i in range(len(lines)):
+            if '+= 1' in lines[i] or lines[i].strip().startswith(('def ','while ','for ')): continue
             cand=lines[:i]+lines[i+1:]
             d=await differs('\n'.join(cand)+'\n')
             if d and d[0]==kind:
